@@ -160,8 +160,12 @@ def build(s):
     if t == "sumtensor":
         return ttb.sumtensor([build(p) for p in s["parts"]])
     if t == "tenmat":
+        if "cdims" in s:
+            return build(s["tensor"]).to_tenmat(np.array(s["rdims"], dtype=int), np.array(s["cdims"], dtype=int))
         return build(s["tensor"]).to_tenmat(np.array(s["rdims"], dtype=int))
     if t == "sptenmat":
+        if "cdims" in s:
+            return build(s["sptensor"]).to_sptenmat(np.array(s["rdims"], dtype=int), np.array(s["cdims"], dtype=int))
         return build(s["sptensor"]).to_sptenmat(np.array(s["rdims"], dtype=int))
     if t == "objective":
         from pyttb.gcp.handles import Objectives
@@ -412,41 +416,105 @@ def case(cls, method, label, recv=None, args=(), kwargs=None, model=COMP, kind="
             "args": list(args), "kwargs": dict(kwargs or {}), "model": model}
 
 
-def perms_for(rng, shape, tier):
-    n = len(shape)
-    if tier == "thorough" and n <= 4:
-        import itertools
+def keeps_layout(shape, order):
+    """Transposing F-contiguous data of this shape by `order` leaves it F-contiguous (theorem
+    C05_view_iff_fcontig and its singleton corollary): the modes of extent > 1 keep their
+    relative order.  These are exactly the orders for which the model predicts a VIEW unless
+    the code copies, so every operation that takes a mode order / mode split is swept over them."""
+    ns = [k for k in order if shape[k] != 1]
+    return ns == sorted(ns)
+
+
+def _all_orders(rng, n):
+    import itertools
+    if n <= 4:
         return [list(q) for q in itertools.permutations(range(n))]
-    out = [list(range(n))]
-    if n >= 2:
-        out.append(list(reversed(range(n))))
-        p = gen.perm(rng, n)
-        if p not in out:
-            out.append(p)
-        # an order that moves only singleton modes
-        if 1 in shape:
-            k = shape.index(1)
-            q = list(range(n))
-            j = k - 1 if k > 0 else k + 1
-            q[k], q[j] = q[j], q[k]
-            if q not in out:
-                out.append(q)
+    return [list(range(n))] + [gen.perm(rng, n) for _ in range(30)]
+
+
+def perms_for(rng, shape, tier):
+    """Mode orders: the identity, every order that only relocates singleton modes (capped in the
+    quick tier), the reversal and a random order that changes the layout."""
+    n = len(shape)
+    allp = _all_orders(rng, n)
+    if tier == "thorough":
+        return allp
+    ident = list(range(n))
+    keep = [q for q in allp if keeps_layout(shape, q) and q != ident]
+    other = [q for q in allp if not keeps_layout(shape, q)]
+    out = [ident] + (keep if len(keep) <= 5 else rng.sample(keep, 5))
+    rev = ident[::-1]
+    if rev in other:
+        out.append(rev)
+    rest = [q for q in other if q not in out]
+    if rest:
+        out.append(rng.choice(rest))
     return out
 
 
+def mode_splits(rng, shape, tier):
+    """(rdims, cdims) pairs for matricizations: every single row mode, the two trivial splits,
+    every split of an order that only relocates singleton modes (capped in the quick tier), and
+    splits of layout-changing orders."""
+    n = len(shape)
+    ident = list(range(n))
+    out = [([r], [k for k in ident if k != r]) for r in ident]
+    out += [(ident, []), ([], ident)]
+    allp = _all_orders(rng, n)
+    keep, other = [], []
+    for q in allp:
+        for cut in range(1, n):
+            sp = (q[:cut], q[cut:])
+            (keep if keeps_layout(shape, q) else other).append(sp)
+    keep = [sp for sp in keep if sp not in out]
+    other = [sp for sp in other if sp not in out]
+    if tier == "quick":
+        keep = keep if len(keep) <= 6 else rng.sample(keep, 6)
+        other = other if len(other) <= 2 else rng.sample(other, 2)
+    seen, res = set(), []
+    for sp in out + keep + other:
+        key = (tuple(sp[0]), tuple(sp[1]))
+        if key not in seen:
+            seen.add(key)
+            res.append(sp)
+    return res
+
+
+def mode_subsets(rng, n, tier):
+    """Non-empty subsets of the modes (all of them for n <= 3, or in the thorough tier)."""
+    import itertools
+    subs = [list(c) for k in range(1, n + 1) for c in itertools.combinations(range(n), k)]
+    if tier == "thorough" or n <= 3:
+        return subs
+    singles = [c for c in subs if len(c) == 1]
+    rest = [c for c in subs if len(c) > 1]
+    return singles + rng.sample(rest, min(4, len(rest)))
+
+
 def reshape_targets(shape):
+    """Size-preserving targets: the shape itself, flattening, merging the first two modes,
+    appending / prepending / dropping / relocating singleton modes, two-factor splits."""
     n = gen.numel(shape)
     out = [list(shape), [n]]
     if len(shape) >= 2:
         out.append([shape[0] * shape[1]] + list(shape[2:]))
-        out.append(list(shape) + [1])
+    out.append(list(shape) + [1])
+    out.append([1] + list(shape))
+    nos = [d for d in shape if d != 1]
+    if nos and nos != list(shape):
+        out.append(nos)
+        out.append(nos + [1] * (len(shape) - len(nos)))
     for d in (2, 3):
-        if n % d == 0 and [d, n // d] not in out:
+        if n % d == 0:
             out.append([d, n // d])
-    return out
+    res = []
+    for t in out:
+        if t not in res:
+            res.append(t)
+    return res
 
 
-DENSE_SHAPES = [[2, 3, 4], [3, 1, 2], [3, 4], [4], [1, 3], [2, 1, 1, 3]]
+DENSE_SHAPES = [[2, 3, 4], [3, 1, 2], [3, 4], [4], [1, 3], [2, 1, 1, 3], [2, 3, 1, 2], [1, 1, 2]]
 
 
 def tensor_cases(rng, tier):
@@ -502,14 +570,19 @@ def tensor_cases(rng, tier):
         sq = [d for d in shape if d > 1]
         flag = "none" if len(sq) == N else ("scalar" if not sq else "some")
         out.append(case(C, "squeeze", flag, X, [], {}, M(C, "squeeze", flag=flag, shape=(shape if flag == "none" else sq))))
-        # to_tenmat
+        # to_tenmat over mode splits (incl. splits that only relocate singleton modes)
+        for rd, cd in mode_splits(rng, shape, tier):
+            for copy in (True, False):
+                lab = ("keeps-layout" if keeps_layout(shape, rd + cd) else "relayout") + f"/copy={copy}"
+                out.append(case(C, "to_tenmat", lab, X, [], {"rdims": iarr(rd), "cdims": iarr(cd), "copy": py(copy)},
+                                M(C, "to_tenmat", perm=rd + cd, dims=[shape[k] for k in rd + cd],
+                                  shape=[gen.numel([shape[k] for k in rd]), gen.numel([shape[k] for k in cd])], copy=copy)))
         for r in range(N):
             rd = [r]
             cd = [k for k in range(N) if k != r]
-            for copy in (True, False):
-                out.append(case(C, "to_tenmat", f"rdims/copy={copy}", X, [iarr(rd)], {"copy": py(copy)},
-                                M(C, "to_tenmat", perm=rd + cd, dims=[shape[k] for k in rd + cd],
-                                  shape=[shape[r], gen.numel(shape) // shape[r]], copy=copy)))
+            out.append(case(C, "to_tenmat", "rdims-only", X, [iarr(rd)], {"copy": py(False)},
+                            M(C, "to_tenmat", perm=rd + cd, dims=[shape[k] for k in rd + cd],
+                              shape=[shape[r], gen.numel(shape) // shape[r]], copy=False)))
         if N >= 2:
             out.append(case(C, "to_tenmat", "cdims", X, [], {"cdims": iarr([0])},
                             M(C, "to_tenmat", perm=list(range(1, N)) + [0], dims=shape[1:] + shape[:1],
@@ -570,10 +643,15 @@ def tensor_cases(rng, tier):
         out.append(case(C, "ttv", "one", X, [vec(rng, shape[0]), py(0)], {}, ttv_model([0])))
         out.append(case(C, "ttv", "all", X, [lst([vec(rng, d) for d in shape])], {}, ttv_model(list(range(N)))))
         if N >= 2:
+            for ds in mode_subsets(rng, N, tier):
+                out.append(case(C, "ttv", f"dims{len(ds)}", X, [lst([vec(rng, shape[k]) for k in ds]), iarr(ds)], {},
+                                ttv_model(ds)))
             out.append(case(C, "ttv", "exclude", X, [lst([vec(rng, d) for d in shape[1:]])], {"exclude_dims": py(0)},
                             ttv_model(list(range(1, N)))))
-            out.append(case(C, "ttv", "dims-arr", X, [lst([vec(rng, shape[1])]), iarr([1])], {}, ttv_model([1])))
-            out.append(case(C, "ttm", "one", X, [mat(rng, 2, shape[0]), py(0)], {}, ttm_model(0, 2)))
+            for n in range(N):
+                out.append(case(C, "ttm", f"mode{n}", X, [mat(rng, 2, shape[n]), py(n)], {}, ttm_model(n, 2)))
+                out.append(case(C, "collapse", f"mode{n}", X, [iarr([n])]))
+                out.append(case(C, "scale", f"mode{n}", X, [vec(rng, shape[n]), iarr([n])]))
             out.append(case(C, "ttm", "C-layout", X, [mat(rng, 2, shape[1], "C"), py(1)], {}, ttm_model(1, 2)))
             out.append(case(C, "ttm", "transpose", X, [mat(rng, shape[N - 1], 2), py(N - 1)], {"transpose": py(True)},
                             ttm_model(N - 1, 2)))
@@ -634,7 +712,7 @@ def tensor_cases(rng, tier):
     return out
 
 
-SPARSE_SHAPES = [[2, 3, 4], [3, 1, 2], [3, 4], [4]]
+SPARSE_SHAPES = [[2, 3, 4], [3, 1, 2], [3, 4], [4], [1, 3], [2, 1, 1, 3]]
 
 
 def sptensor_cases(rng, tier):
@@ -689,7 +767,9 @@ def sptensor_cases(rng, tier):
             nsq = [d for d in shape if d > 1]
             out.append(case(C, "squeeze", lab, X, [], {},
                             M(C, "copy") if len(nsq) == N else (NSm if nsq else COMP)))
-            out.append(case(C, "to_sptenmat", lab, X, [iarr([0])]))
+            for rd, cd in mode_splits(rng, shape, tier):
+                out.append(case(C, "to_sptenmat", f"{lab}/{'keeps-layout' if keeps_layout(shape, rd + cd) else 'relayout'}",
+                                X, [], {"rdims": iarr(rd), "cdims": iarr(cd)}))
             out.append(case(C, "collapse", f"{lab}/all", X))
             out.append(case(C, "elemfun", lab, X, [fn("sqrtabs")]))
             out.append(case(C, "extract", lab, X, [arr([1, N], [0] * N, "i", "C")]))
@@ -727,11 +807,16 @@ def sptensor_cases(rng, tier):
             out.append(case(C, "collapse", "dims", X, [iarr([0])]))
             out.append(case(C, "collapse", "dims-many", X, [iarr([N - 1]), fn("sum")]))
             out.append(case(C, "ttv", "exclude", X, [lst([vec(rng, d) for d in shape[1:]])], {"exclude_dims": py(0)}))
-            out.append(case(C, "ttm", "one", X, [mat(rng, 2, shape[0]), py(0)]))
+            for ds in mode_subsets(rng, N, tier):
+                out.append(case(C, "ttv", f"dims{len(ds)}", X, [lst([vec(rng, shape[k]) for k in ds]), iarr(ds)]))
+            for n in range(N):
+                out.append(case(C, "ttm", f"mode{n}", X, [mat(rng, 2, shape[n]), py(n)]))
+                out.append(case(C, "collapse", f"mode{n}", X, [iarr([n])]))
             out.append(case(C, "ttm", "transpose", X, [mat(rng, shape[1], 2), py(1)], {"transpose": py(True)}))
             out.append(case(C, "ttm", "list", X, [lst([mat(rng, 2, d) for d in shape])]))
             U = [mat(rng, d, 2) for d in shape]
-            out.append(case(C, "mttkrp", "list", X, [lst(U), py(0)]))
+            for n in range(N):
+                out.append(case(C, "mttkrp", f"list/{n}", X, [lst(U), py(n)]))
             out.append(case(C, "mttkrp", "ktensor", X, [Kspec(rng, shape), py(1)]))
             out.append(case(C, "nvecs", "", X, [py(0), py(1)]))
             out.append(case(C, "to_sptenmat", "cdims", X, [], {"cdims": iarr([0])}))
@@ -768,7 +853,7 @@ def sptensor_cases(rng, tier):
     return out
 
 
-K_SHAPES = [[2, 3, 4], [3, 2], [4]]
+K_SHAPES = [[2, 3, 4], [3, 2], [4], [2, 1, 3], [1, 3, 1, 2]]
 
 
 def ktensor_cases(rng, tier):
@@ -820,6 +905,10 @@ def ktensor_cases(rng, tier):
             # ttv
             out.append(case(C, "ttv", f"{lab}/all", X, [lst([vec(rng, d) for d in shape])], {}, M(C, "ttv", n=n, flag="scalar")))
             if n >= 2:
+                for ds in mode_subsets(rng, n, tier):
+                    rem = [k for k in range(n) if k not in ds]
+                    out.append(case(C, "ttv", f"{lab}/dims{len(ds)}", X, [lst([vec(rng, shape[k]) for k in ds]), iarr(ds)], {},
+                                    M(C, "ttv", n=n, dims=rem, flag="" if rem else "scalar")))
                 out.append(case(C, "ttv", f"{lab}/one", X, [vec(rng, shape[0]), py(0)], {},
                                 M(C, "ttv", n=n, dims=list(range(1, n)))))
                 out.append(case(C, "ttv", f"{lab}/exclude", X, [lst([vec(rng, d) for d in shape[:-1]])],
@@ -871,8 +960,10 @@ def ktensor_cases(rng, tier):
             out.append(case(C, "mttkrp", "ktensor", X, [Y, py(n - 1)]))
             out.append(case(C, "nvecs", "eigsh", X, [py(0), py(1)]))
             out.append(case(C, "nvecs", "dense", X, [py(n - 1), py(shape[n - 1])]))
-            out.append(case(C, "to_tenmat", "", X, [iarr([0])]))
-            out.append(case(C, "to_tenmat", "copy=False", X, [iarr([1])], {"copy": py(False)}))
+            for rd, cd in mode_splits(rng, shape, tier):
+                for copy in (True, False):
+                    out.append(case(C, "to_tenmat", f"{'keeps-layout' if keeps_layout(shape, rd + cd) else 'relayout'}/copy={copy}",
+                                    X, [], {"rdims": iarr(rd), "cdims": iarr(cd), "copy": py(copy)}))
     X = Kspec(rng, [3, 3, 3], 2)
     out.append(case(C, "symmetrize", "", X))
     out.append(case(C, "issymmetric", "cubic", X))
@@ -882,7 +973,7 @@ def ktensor_cases(rng, tier):
 def ttensor_cases(rng, tier):
     out = []
     C = "ttensor"
-    for shape, cs in (([3, 4, 2], [2, 2, 2]), ([3, 2], [2, 1])):
+    for shape, cs in (([3, 4, 2], [2, 2, 2]), ([3, 2], [2, 1]), ([3, 1, 2], [2, 1, 2])):
         n = len(shape)
         names = ["core.data"] + [f"f{i}" for i in range(n)]
         CA = M("any", "copy_all", m=n + 1, flag=",".join(names))
@@ -916,7 +1007,11 @@ def ttensor_cases(rng, tier):
         out.append(case(C, "ttv", "one", X, [vec(rng, shape[0]), py(0)]))
         out.append(case(C, "ttv", "all", X, [lst([vec(rng, d) for d in shape])]))
         out.append(case(C, "ttv", "exclude", X, [lst([vec(rng, d) for d in shape[1:]])], {"exclude_dims": py(0)}))
-        out.append(case(C, "ttm", "one", X, [mat(rng, 2, shape[0]), py(0)]))
+        for ds in mode_subsets(rng, n, tier):
+            out.append(case(C, "ttv", f"dims{len(ds)}", X, [lst([vec(rng, shape[k]) for k in ds]), iarr(ds)]))
+        for k in range(n):
+            out.append(case(C, "ttm", f"mode{k}", X, [mat(rng, 2, shape[k]), py(k)]))
+            out.append(case(C, "mttkrp", f"list/{k}", X, [lst([mat(rng, d, 2) for d in shape]), py(k)]))
         out.append(case(C, "ttm", "list", X, [lst([mat(rng, 2, d) for d in shape])]))
         out.append(case(C, "ttm", "transpose", X, [mat(rng, shape[1], 2)], {"dims": py(1), "transpose": py(True)}))
         out.append(case(C, "ttm", "exclude", X, [lst([mat(rng, 2, d) for d in shape[1:]])], {"exclude_dims": py(0)}))
@@ -962,41 +1057,60 @@ def sumtensor_cases(rng, tier):
     return out
 
 
+MAT_SHAPES = [[2, 3, 4], [3, 2], [3, 1, 4], [1, 5], [2, 3, 1, 2], [4]]
+
+
 def tenmat_cases(rng, tier):
     out = []
     C = "tenmat"
-    for shape, rd in (([2, 3, 4], [0]), ([2, 3, 4], [1]), ([3, 2], [0]), ([3, 2], [1]), ([2, 3, 4], [2, 0])):
+    shapes = MAT_SHAPES if tier == "quick" else MAT_SHAPES + [gen.shape(rng, 1, 4, 3) for _ in range(8)]
+    for shape in shapes:
         N = len(shape)
-        cd = [k for k in range(N) if k not in rd]
-        r = gen.numel([shape[k] for k in rd])
-        c = gen.numel(shape) // r
-        data = gen.dense_data(rng, [r, c])
-        for lay in ("F", "C"):
+        for rd, cd in mode_splits(rng, shape, tier):
+            order = rd + cd
+            lay = "keeps-layout" if keeps_layout(shape, order) else "relayout"
+            r = gen.numel([shape[k] for k in rd])
+            c = gen.numel([shape[k] for k in cd])
+            data = gen.dense_data(rng, [r, c])
+            for lo in ("F", "C"):
+                for copy in (True, False):
+                    out.append(case(C, "__init__", f"{lay}/{lo}/copy={copy}", None,
+                                    [arr([r, c], data, "f", lo), iarr(rd), iarr(cd), py(shape)],
+                                    {"copy": py(copy)}, M(C, "__init__", copy=copy, shape=[r, c]), "ctor"))
+            X = {"t": "tenmat", "tensor": Tspec(rng, shape), "rdims": rd, "cdims": cd}
+            CA = M("any", "copy_all", m=3, flag="data,rindices,cindices")
             for copy in (True, False):
-                out.append(case(C, "__init__", f"{lay}/copy={copy}", None, [arr([r, c], data, "f", lay), iarr(rd), iarr(cd), py(shape)],
-                                {"copy": py(copy)}, M(C, "__init__", copy=copy, shape=[r, c]), "ctor"))
-        out.append(case(C, "__init__", "cdims-only", None, [arr([r, c], data, "f", "F")], {"cdims": iarr(cd), "tshape": py(shape)},
-                        M(C, "__init__", copy=True, shape=[r, c]), "ctor"))
+                out.append(case(C, "to_tensor", f"{lay}/copy={copy}", X, [], {"copy": py(copy)},
+                                M(C, "to_tensor", copy=copy, dims=[shape[k] for k in order],
+                                  perm=[order.index(k) for k in range(N)], shape=shape)))
+            out.append(case(C, "to_tensor", f"{lay}/default", X, [], {},
+                            M(C, "to_tensor", copy=True, dims=[shape[k] for k in order],
+                              perm=[order.index(k) for k in range(N)], shape=shape)))
+            for m in ("copy", "__pos__"):
+                out.append(case(C, m, lay, X, [], {}, CA))
+            out.append(case(C, "ctranspose", lay, X))
+            out.append(case(C, "double", lay, X))
+            out.append(case(C, "__neg__", lay, X))
+        # one representative split per shape for the remaining operations
+        rd = [0]
+        cd = list(range(1, N))
+        r, c = shape[0], gen.numel(shape) // shape[0]
         X = {"t": "tenmat", "tensor": Tspec(rng, shape), "rdims": rd}
         CA = M("any", "copy_all", m=3, flag="data,rindices,cindices")
-        for m in ("copy", "__pos__"):
-            out.append(case(C, m, "", X, [], {}, CA))
+        out.append(case(C, "__init__", "cdims-only", None, [arr([r, c], gen.dense_data(rng, [r, c]), "f", "F")],
+                        {"cdims": iarr(cd), "tshape": py(shape)}, M(C, "__init__", copy=True, shape=[r, c]), "ctor"))
         out.append(case(C, "__deepcopy__", "", X, [py({})], {}, CA))
-        for m in ("double", "norm", "__neg__", "__repr__", "__str__", "ctranspose"):
+        for m in ("norm", "__repr__", "__str__"):
             out.append(case(C, m, "", X))
         for m in ("ndims", "order", "shape"):
             out.append(case(C, m, "", X, kind="prop"))
-        order = rd + cd
-        for copy in (True, False):
-            out.append(case(C, "to_tensor", f"copy={copy}", X, [], {"copy": py(copy)},
-                            M(C, "to_tensor", copy=copy, dims=[shape[k] for k in order],
-                              perm=[order.index(k) for k in range(N)], shape=shape)))
         Y = {"t": "tenmat", "tensor": Tspec(rng, shape), "rdims": rd}
         for m in ("__add__", "__sub__", "__radd__", "__rsub__", "isequal"):
             out.append(case(C, m, "tenmat", X, [Y]))
         for m in ("__add__", "__sub__", "__radd__", "__rsub__", "__mul__", "__rmul__"):
             out.append(case(C, m, "scalar", X, [py(2.0)]))
-        out.append(case(C, "__mul__", "tenmat", X, [{"t": "tenmat", "tensor": Tspec(rng, shape), "rdims": cd}]))
+        if N >= 2:
+            out.append(case(C, "__mul__", "tenmat", X, [{"t": "tenmat", "tensor": Tspec(rng, shape), "rdims": cd}]))
         out.append(case(C, "__getitem__", "slice", X, [tup([sl(0, 1), sl(None, None)])], {},
                         M(C, "__getitem__", flag="slice", dims=[0, 0, 1])))
         out.append(case(C, "__getitem__", "slice-all", X, [tup([sl(None, None), sl(None, None)])], {},
@@ -1015,44 +1129,52 @@ def tenmat_cases(rng, tier):
 def sptenmat_cases(rng, tier):
     out = []
     C = "sptenmat"
-    for shape, rd in (([2, 3, 4], [0]), ([3, 2], [1]), ([2, 3, 4], [2, 0])):
+    shapes = MAT_SHAPES if tier == "quick" else MAT_SHAPES + [gen.shape(rng, 1, 4, 3) for _ in range(8)]
+    for shape in shapes:
         N = len(shape)
-        cd = [k for k in range(N) if k not in rd]
-        r = gen.numel([shape[k] for k in rd])
-        c = gen.numel(shape) // r
-        cells = [[i, j] for j in range(c) for i in range(r)]
-        pick = rng.sample(cells, min(3, len(cells)))
-        pick.sort(key=lambda q: (q[0], q[1]))
-        flat = [q[0] for q in pick] + [q[1] for q in pick]
-        vals = [rng.randint(1, 5) for _ in pick]
-        for copy in (True, False):
-            out.append(case(C, "__init__", f"copy={copy}", None,
-                            [arr([len(pick), 2], flat, "i", "C"), arr([len(pick), 1], vals, "f"), iarr(rd), iarr(cd), py(shape)],
-                            {"copy": py(copy)}, M(C, "__init__", copy=copy), "ctor"))
+        for rd, cd in mode_splits(rng, shape, tier):
+            lay = "keeps-layout" if keeps_layout(shape, rd + cd) else "relayout"
+            r = gen.numel([shape[k] for k in rd])
+            c = gen.numel([shape[k] for k in cd])
+            cells = [[i, j] for j in range(c) for i in range(r)]
+            pick = rng.sample(cells, min(3, len(cells)))
+            pick.sort(key=lambda q: (q[0], q[1]))
+            vals = [rng.randint(1, 5) for _ in pick]
+            for copy in (True, False):
+                out.append(case(C, "__init__", f"{lay}/copy={copy}", None,
+                                [rows(pick), arr([len(pick), 1], vals, "f"), iarr(rd), iarr(cd), py(shape)],
+                                {"copy": py(copy)}, M(C, "__init__", copy=copy), "ctor"))
+            for klass in ("some", "empty"):
+                X = {"t": "sptenmat", "sptensor": Sspec(rng, shape, klass), "rdims": rd, "cdims": cd}
+                for m in ("full", "to_sptensor", "__neg__"):
+                    out.append(case(C, m, f"{klass}/{lay}", X))
+                if klass == "some":
+                    out.append(case(C, "copy", f"{klass}/{lay}", X, [], {}, M("any", "copy_all", m=4, flag="subs,vals,rdims,cdims")))
+                    out.append(case(C, "double", f"{klass}/{lay}", X, [], {}, M(C, "double")))
+        rd = [0]
+        cd = list(range(1, N))
+        r, c = shape[0], gen.numel(shape) // shape[0]
         out.append(case(C, "__init__", "empty", None, [], {"rdims": iarr(rd), "cdims": iarr(cd), "tshape": py(shape)}, COMP, "ctor"))
-        dense = [0] * (r * c)
-        for q, v in zip(pick, vals):
-            dense[q[0] + r * q[1]] = v
+        dense = [(i * 7 + 3) % 5 if (i % 2) else 0 for i in range(r * c)]
         out.append(case(C, "from_array", "ndarray", None, [arr([r, c], dense), iarr(rd), iarr(cd), py(shape)], {}, COMP, "static"))
         for klass in ("some", "empty"):
             X = {"t": "sptenmat", "sptensor": Sspec(rng, shape, klass), "rdims": rd}
             CA = M("any", "copy_all", m=4, flag="subs,vals,rdims,cdims")
             if klass == "some":
-                for m in ("copy", "__pos__"):
-                    out.append(case(C, m, klass, X, [], {}, CA))
+                out.append(case(C, "__pos__", klass, X, [], {}, CA))
                 out.append(case(C, "__deepcopy__", klass, X, [py({})], {}, CA))
-                out.append(case(C, "double", klass, X, [], {}, M(C, "double")))
             else:
                 for m in ("copy", "__pos__", "double"):
                     out.append(case(C, m, klass, X))
-            for m in ("full", "to_sptensor", "norm", "__neg__", "__repr__", "__str__"):
+            for m in ("norm", "__repr__", "__str__"):
                 out.append(case(C, m, klass, X))
             for m in ("nnz", "order", "shape"):
                 out.append(case(C, m, klass, X, kind="prop"))
             out.append(case(C, "isequal", klass, X, [{"t": "sptenmat", "sptensor": Sspec(rng, shape), "rdims": rd}]))
         X = {"t": "sptenmat", "sptensor": Sspec(rng, shape, "some"), "rdims": rd}
+        full_ = len(X["sptensor"]["subs"]) == gen.numel(shape)
         out.append(case(C, "__setitem__", "new", X, [tup([sl(None, None), sl(None, None)]), py(2.0)], {},
-                        M(C, "__setitem__", flag="rebuild"), "inplace"))
+                        M(C, "__setitem__", flag="change" if full_ else "rebuild"), "inplace"))
         Xall = {"t": "sptenmat", "sptensor": Sspec(rng, shape, "all"), "rdims": rd}
         out.append(case(C, "__setitem__", "change", Xall, [tup([py(0), py(0)]), py(9.0)], {},
                         M(C, "__setitem__", flag="change"), "inplace"))
